@@ -78,29 +78,35 @@ def _stmt(n):
 
 
 VAR = {"inv": "INV", "cov": "COV", "contra": "CONTRA"}
+VARIANCE_IN_BOUND = []
 
 
 def variance_table(repo):
     """Evaluate _get_type_arg_variance over all abstract inputs -> list of (env, possible results)."""
     f = repo.fn(TU + "._get_type_arg_variance")
     tparam, choices, others = f.params[:3]
-    # the in_bound definition must be any(x.has_bound_of(t_param) for x in other_type_params)
+    # the in_bound definition: any(x.has_bound_of(t_param) for x in other_type_params).  When the function no longer
+    # computes it (the caller passes a flag instead) the third parameter itself is the abstract boolean; C08-R2
+    # reports that as a violated obligation (VARIANCE_IN_BOUND), C17 only needs the table.
     any_calls = [c for c in calls_in(f.node) if isinstance(c.func, ast.Name) and c.func.id == "any"]
-    if len(any_calls) != 1:
-        raise AnalysisError("expected one any(...) in _get_type_arg_variance", rule="C08-R2", anchor=f.qualname)
-    g = any_calls[0].args[0]
-    if not (isinstance(g, ast.GeneratorExp) and isinstance(g.elt, ast.Call) and call_name(g.elt) == "has_bound_of"
-            and src(g.elt.args[0]) == tparam and src(g.elt.func.value) == src(g.generators[0].target)
-            and src(g.generators[0].iter) == others and not g.generators[0].ifs):
-        raise AnalysisError("in_bound is not any(p.has_bound_of(%s) for p in %s): %s" % (tparam, others, src(any_calls[0])),
-                            rule="C08-R2", anchor=f.qualname)
+    VARIANCE_IN_BOUND.clear()
+    shaped = False
+    if len(any_calls) == 1:
+        g = any_calls[0].args[0] if any_calls[0].args else None
+        shaped = (isinstance(g, ast.GeneratorExp) and isinstance(g.elt, ast.Call) and call_name(g.elt) == "has_bound_of"
+                  and src(g.elt.args[0]) == tparam and src(g.elt.func.value) == src(g.generators[0].target)
+                  and src(g.generators[0].iter) == others and not g.generators[0].ifs)
+    VARIANCE_IN_BOUND.append((shaped, "in_bound must be any(p.has_bound_of(%s) for p in %s); found %s" % (
+        tparam, others, [src(c) for c in any_calls] or "no any(...) - parameter `%s` is used as given" % others)))
+    if len(any_calls) > 1:
+        raise AnalysisError("more than one any(...) in _get_type_arg_variance", rule="C08-R2", anchor=f.qualname)
     rows = []
     for ch, inb, dsv, dsc, decl in itertools.product(
             [None, "absent", (False, False), (False, True), (True, False), (True, True)],
             [False, True], [False, True], [False, True], ["inv", "cov", "contra"]):
-        env = {tparam: "TPARAM", choices: None if ch is None else "CHOICES", others: "OTHERS"}
+        env = {tparam: "TPARAM", choices: None if ch is None else "CHOICES", others: "OTHERS" if any_calls else inb}
         hooks = {
-            src(any_calls[0]): inb,
+            (src(any_calls[0]) if any_calls else "<no any>"): inb,
             "cfg.dis.use_site_variance": dsv,
             "cfg.dis.use_site_contravariance": dsc,
             "tp.Invariant": "INV", "tp.Covariant": "COV", "tp.Contravariant": "CONTRA",
@@ -134,6 +140,8 @@ def allowed(env):
 def r2_variance_table(repo):
     f, rows = variance_table(repo)
     obs = []
+    for okb, msgb in VARIANCE_IN_BOUND:
+        obs.append(Ob("C08-R2", "in_bound:computed-from-the-other-parameters'-bounds", _w(f), okb, msgb))
     for env, poss in rows:
         al = allowed(env)
         key = "row:" + " ".join("%s=%s" % (k, v) for k, v in env.items())
